@@ -34,8 +34,9 @@ Print Assumptions C03_encode_writes_crc.
    order: LSB first within a byte; in particular not by a single bit, and not by any change confined
    to 2 resp. 4 consecutive bytes) inside the covered bytes while carrying the same CRC value; nor
    can they carry different CRC values over the same covered bytes.  So if the original block is
-   accepted, the corrupted one is rejected. Bursts straddling covered bytes and the CRC value are
-   not covered by this theorem (PARTIAL for that sub-case). *)
+   accepted, the corrupted one is rejected. Bursts straddling covered bytes and the CRC value: see
+   Properties/C03_straddle.v (C03_straddle_rejected covers every position). Here they are
+   not covered by this (older, narrower) theorem. *)
 Theorem C03_burst_rejected : forall t w1 w2,
   (t = 1 \/ t = 2) -> crc_holds t w1 -> crc_holds t w2 ->
   forall len d1 d2 v pre e post,
